@@ -124,8 +124,8 @@ var (
 
 	entriesByKind = map[string][]*entry{
 		"address": {eDecode, eDecodeAndConvert, eGetFrom, eAddrFromBech32, eAddrFromString, eUnmarshalAmino, eUnmarshalJSON, eIDValidate, ePubKeyFromBech32},
-		"pubkey":  {eDecode, eDecodeAndConvert, eGetFrom, ePubKeyFromBech32, eAddrFromBech32, eAddrFromString},
-		"generic": {eDecode, eDecodeAndConvert, eGetFrom, eAddrFromBech32, eAddrFromString, ePubKeyFromBech32},
+		"pubkey":  {eDecode, eDecodeAndConvert, eGetFrom, ePubKeyFromBech32, eAddrFromBech32},
+		"generic": {eDecode, eDecodeAndConvert, eGetFrom, eAddrFromBech32},
 	}
 )
 
@@ -199,7 +199,7 @@ func newFamily(kind, s string, insMax int) *family {
 			x := []byte(s)
 			x[letters[a]] ^= 0x20
 			x[letters[b]] ^= 0x20
-			f.vars = append(f.vars, variant{"case-flip-2", string(x), false})
+			f.vars = append(f.vars, variant{"case-flip", string(x), false})
 		}
 	}
 	return f
@@ -210,11 +210,11 @@ func historyFamilies(kind string, thorough bool) []*family {
 	switch kind {
 	case "address":
 		var addrs []crypto.Address
-		for k := 0; k < 4; k++ {
+		for k := 0; k < 3; k++ {
 			a, _ := crypto.AddressFromBytes(pattern(k, crypto.AddressSize))
 			addrs = append(addrs, a)
 		}
-		n := 2
+		n := 1
 		if thorough {
 			n = 24
 		}
@@ -224,11 +224,14 @@ func historyFamilies(kind string, thorough bool) []*family {
 		for _, a := range addrs {
 			out = append(out, newFamily(kind, crypto.AddressToBech32(a), 64))
 		}
-		out = append(out, newFamily(kind, strings.ToUpper(out[2].s), 64), newFamily(kind, strings.ToUpper(out[4].s), 64))
+		out = append(out, newFamily(kind, strings.ToUpper(out[2].s), 64))
+		if thorough {
+			out = append(out, newFamily(kind, strings.ToUpper(out[4].s), 64))
+		}
 	case "pubkey":
 		out = append(out,
 			newFamily(kind, crypto.PubKeyToBech32(ed25519.GenPrivKeyFromSecret([]byte("c45-ed25519")).PubKey()), 0),
-			newFamily(kind, crypto.PubKeyToBech32(secp256k1.GenPrivKeySecp256k1([]byte("c45-secp256k1")).PubKey()), 200),
+			newFamily(kind, crypto.PubKeyToBech32(secp256k1.GenPrivKeySecp256k1([]byte("c45-secp256k1")).PubKey()), map[bool]int{false: 0, true: 200}[thorough]),
 		)
 		out = append(out, newFamily(kind, strings.ToUpper(out[0].s), 0))
 		if thorough {
@@ -239,7 +242,7 @@ func historyFamilies(kind string, thorough bool) []*family {
 	case "generic":
 		for _, p := range []string{"g", "gpub", "a", "1", "g1x", "x-_~!", "0", "g9", strings.Repeat("a", 83)} {
 			pays := [][]byte{pattern(2, 3)}
-			if len(p) == 1 || thorough {
+			if p == "g" || thorough {
 				pays = append(pays, []byte{}, pattern(1, 21))
 			}
 			for _, d := range pays {
@@ -300,6 +303,7 @@ func runHistoryWorker(kind string) histResult {
 	fams := historyFamilies(kind, r.Thorough())
 	res := histResult{Kind: kind, Outcomes: map[string]int64{}}
 	applies := func(e *entry, s string) bool { return !e.printable || jsonSafe(s) }
+	firstValid := map[string]string{} // entry|string -> disagreement ("" = none) of the first decoding in this process
 
 	// step 0: cold. Malformed variants of every family first, the valid spellings last.
 	for pass := 0; pass < 2; pass++ {
@@ -319,6 +323,11 @@ func runHistoryWorker(kind string) histResult {
 					}
 					what, detail, acc := probe(e, f, v.s, v.mustReject)
 					f.coldOK[vi][ei] = what == ""
+					if valid {
+						if _, seen := firstValid[e.name+"|"+v.s]; !seen {
+							firstValid[e.name+"|"+v.s] = what
+						}
+					}
 					if what != "" {
 						fail("cold:"+e.name+":"+what+":"+v.class, v.s, detail)
 					} else if acc {
@@ -330,29 +339,36 @@ func runHistoryWorker(kind string) histResult {
 			}
 		}
 	}
+	// the first decoding of a valid string in this process is judged as such; every later decoding of the same string
+	// by the same entry point must give the same result (a different one is history dependence)
+	checkValid := func(ctx string, e *entry, f *family, s string) {
+		what, detail, _ := probe(e, f, s, false)
+		k := e.name + "|" + s
+		first, seen := firstValid[k]
+		switch {
+		case !seen:
+			firstValid[k] = what
+			if what != "" {
+				fail("valid-string:"+e.name+":"+what, s, detail)
+			}
+		case what != first && what != "":
+			fail("history-dependent:"+e.name+":valid-string-"+what, s, detail+" ("+ctx+"; the first decoding of this string in the process agreed with the reference)")
+		case what != first:
+			fail("history-dependent:"+e.name+":valid-string-verdict-changed", s, "first decoding: "+first+"; "+ctx+": agrees with the reference")
+		case what == "":
+			res.Outcomes["valid_string_decoded_again_same_result"]++
+		}
+	}
 	valid := func(ctx string, f *family, s string) {
 		for _, e := range f.entries {
-			if what, detail, _ := probe(e, f, s, false); what != "" {
-				fail("history-dependent:"+e.name+":valid-string-"+what+":"+ctx, s, detail)
-			} else {
-				res.Outcomes["valid_string_decoded_again_same_result"]++
-			}
+			checkValid(ctx, e, f, s)
 		}
 	}
 	// step 1
 	for _, f := range fams {
 		for _, e := range f.entries {
-			for k, ctx := range []string{"first-decode", "second-decode-in-a-row"} {
-				if what, detail, _ := probe(e, f, f.s, false); what != "" {
-					cls := "history-dependent:"
-					if k == 0 {
-						cls = "valid:"
-					}
-					fail(cls+e.name+":valid-string-"+what+":"+ctx, f.s, detail)
-				} else {
-					res.Outcomes["valid_string_decoded_again_same_result"]++
-				}
-			}
+			checkValid("first-decode", e, f, f.s)
+			checkValid("second-decode-in-a-row", e, f, f.s)
 		}
 	}
 	for i := range fams {
@@ -373,9 +389,11 @@ func runHistoryWorker(kind string) histResult {
 		what, detail, acc := probe(e, f, v.s, v.mustReject)
 		switch {
 		case what != "" && f.coldOK[vi][ei]:
-			fail("history-dependent:"+e.name+":"+what+":"+v.class+":"+ctx, v.s, detail+" (the same call gave the reference's verdict in the cold process; canonical string "+f.s+")")
+			fail("history-dependent:"+e.name+":"+what+":"+v.class, v.s, detail+" ("+ctx+"; the same call gave the reference's verdict in the cold process; canonical string "+f.s+")")
 		case what != "":
 			// already reported as cold:...
+		case !f.coldOK[vi][ei]:
+			fail("history-dependent:"+e.name+":verdict-changed:"+v.class, v.s, ctx+": agrees with the reference, the cold process did not; canonical string "+f.s)
 		case acc:
 			res.Outcomes["probe_"+ctx+"_accepted(reference agrees)"]++
 		default:
@@ -388,9 +406,7 @@ func runHistoryWorker(kind string) histResult {
 				if !applies(e, v.s) {
 					continue
 				}
-				if what, detail, _ := probe(e, f, f.s, false); what != "" {
-					fail("history-dependent:"+e.name+":valid-string-"+what+":between-malformed-variants", f.s, detail)
-				}
+				checkValid("between-malformed-variants", e, f, f.s)
 				judge("right-after-canonical", f, vi, ei)
 			}
 		}
